@@ -75,27 +75,32 @@ func ruleDeadlinePropagation(c *Ctx) {
 	if ex := c.Func("internal/server", "Server", "cmdEXPIRE"); ex != nil {
 		info := ex.Info()
 		okNow := false
+		// the deadline argument of object.New (directly, or the local it was computed into)
 		ast.Inspect(ex.Decl.Body, func(x ast.Node) bool {
-			as, ok := x.(*ast.AssignStmt)
-			if !ok || len(as.Lhs) != 1 || len(as.Rhs) != 1 {
+			call, ok := x.(*ast.CallExpr)
+			if !ok || len(call.Args) != 4 || !isFunc(callee(info, call), modPath+"/internal/object", "New") {
 				return true
 			}
-			if id, ok := as.Lhs[0].(*ast.Ident); ok && id.Name == "ex" {
-				hasNow, hasNano := false, false
-				ast.Inspect(as.Rhs[0], func(y ast.Node) bool {
-					if cc, ok := y.(*ast.CallExpr); ok {
-						if f := callee(info, cc); f != nil {
-							if isFunc(f, "time", "Now") {
-								hasNow = true
-							}
-							if f.Name() == "UnixNano" {
-								hasNano = true
-							}
+			d := call.Args[2]
+			if id, ok := ast.Unparen(d).(*ast.Ident); ok {
+				d = resolveLocal(info, ex.Decl.Body, id)
+			}
+			hasNow, hasNano := false, false
+			ast.Inspect(d, func(y ast.Node) bool {
+				if cc, ok := y.(*ast.CallExpr); ok {
+					if f := callee(info, cc); f != nil {
+						if isFunc(f, "time", "Now") {
+							hasNow = true
+						}
+						if f.Name() == "UnixNano" {
+							hasNano = true
 						}
 					}
-					return true
-				})
-				okNow = hasNow && hasNano
+				}
+				return true
+			})
+			if hasNow && hasNano {
+				okNow = true
 			}
 			return true
 		})
